@@ -56,6 +56,11 @@ def coq_mode(case):
         f = case.get("fault", "none")
         if f == "none":
             return "(MMem NoFault)"
+        if "," in f:
+            parts = [x.split(":") for x in f.split(",")]
+            finds = clist([str(int(i)) for k, i in parts if k == "find"])
+            reads = clist([str(int(i)) for k, i in parts if k == "read"])
+            return f"(MMem (FailMany {finds} {reads}))"
         k, i = f.split(":")
         return f"(MMem ({'FailFind' if k == 'find' else 'FailRead'} {int(i)}))"
     if m == "norm":
@@ -100,11 +105,12 @@ def requests_of(case, fault=None):
         d = materialise(case)
         return [("path", "expanded", "10", os.path.join(d, case["rootid"]))
                 + tuple(os.path.join(d, b) for b in case["bases"][1:])]
-    cmd = "files" if m == "mem" else "nfiles"
+    fault = fault or case.get("fault", "none")
+    cmd = ("ffiles" if "," in fault else "files") if m == "mem" else "nfiles"
     args = []
     for n, b in case["world"]:
         args += [n, scss_of(n, b)]
-    return [(cmd, "expanded", "10", case["rootid"], fault or case.get("fault", "none")) + tuple(args)]
+    return [(cmd, "expanded", "10", case["rootid"], fault) + tuple(args)]
 
 
 MARK = re.compile(r"^m(\d+) \{", re.M)
